@@ -7,13 +7,14 @@ from gen import lib
 class RecoverSuite:
     suite = "recover"
 
-    def __init__(self, cases):
+    def __init__(self, cases, harness_suite="recover"):
         self.cases = cases
+        self.harness_suite = harness_suite
         self.stats = {"images": 0, "torn_images": 0, "model_errors": 0, "unreadable_images": 0,
                       "wals_replayed": 0, "images_with_tables": 0}
 
     def execute(self, workdir, tag="rc"):
-        impl = lib.run_sharded(lib.RVH, "recover", self.cases, workdir, tag + "i",
+        impl = lib.run_sharded(lib.RVH, self.harness_suite, self.cases, workdir, tag + "i",
                                extra_env={"RVH_CASE_TIMEOUT": "600"})
         mcases, index = [], {}
         for c in self.cases:
@@ -43,7 +44,7 @@ class RecoverSuite:
                 continue
             ml = model.get(mid, mid + " MISSING").split(" ")
             self.stats["images"] += 1
-            self.stats["torn_images"] += parts[0].split(".")[1] != "-"
+            self.stats["torn_images"] += "@" not in parts[0] and parts[0].split(".")[1] != "-"
             bad = None
             if len(ml) < 3:
                 bad = "model run failed: " + " ".join(ml)[:200]
